@@ -2250,3 +2250,62 @@ def rule_text_files_name_their_encoding(ctx, rep: Report, rid="R10", min_sites=6
                     f"character in an interface file or template raises UnicodeDecodeError or is written as other bytes", f"{mi.rel}:{c.lineno}")
     if n < min_sites:
         raise AnalysisError(f"{rep.prop}/{rid}: only {n} text-mode file operations found ({min_sites} expected)")
+
+
+def rule_name_dispatch_rejects_unknown(ctx, rep: Report, rid="V9", package="gtwrap/", min_functions=100):
+    """A chain `if x.name == 'a': ... elif x.name == 'b': ...` over the *name* of a declaration enumerates the names the
+    generator understands; the grammar accepts any identifier there (`__anything__` is a dunder method).  What is not
+    listed has to be rejected: the chain ends in an `else` that raises, or - the form on the pinned tree - every branch
+    binds a local that is read after the chain and bound nowhere before it, so an unlisted name ends in
+    UnboundLocalError before anything is written.  Pre-binding that local (or a catch-all else that emits something)
+    turns the rejection into a silently half-wrapped declaration."""
+    prog = ctx.prog
+    scanned, n = 0, 0
+    for mi in sorted(prog.modules.values(), key=lambda m: m.rel):
+        if not mi.rel.startswith(package):
+            continue
+        for fn in [f for f in ast.walk(mi.tree) if isinstance(f, ast.FunctionDef)]:
+            scanned += 1
+            for i in walk_no_nested(fn):
+                if not isinstance(i, ast.If):
+                    continue
+                p = parent(i)
+                if isinstance(p, ast.If) and len(p.orelse) == 1 and p.orelse[0] is i:
+                    continue
+                branches, cur, tail = [], i, []
+                while True:
+                    branches.append(cur)
+                    if len(cur.orelse) == 1 and isinstance(cur.orelse[0], ast.If):
+                        cur = cur.orelse[0]
+                        continue
+                    tail = cur.orelse
+                    break
+
+                def subject(t):
+                    if isinstance(t, ast.Compare) and len(t.ops) == 1 and isinstance(t.ops[0], ast.Eq) and isinstance(t.comparators[0], ast.Constant) \
+                            and isinstance(t.comparators[0].value, str) and isinstance(t.left, ast.Attribute) and t.left.attr == "name":
+                        return unparse(t.left)
+                    return None
+                subs = [subject(b.test) for b in branches]
+                if len(branches) < 2 or not all(subs) or len(set(subs)) != 1:
+                    continue
+                n += 1
+                names = [b.test.comparators[0].value for b in branches]
+                raises = bool(tail) and any(isinstance(x, ast.Raise) for st in tail for x in ast.walk(st))
+                # locals bound in every branch, read after the chain, never bound before it
+                def bound(stmts):
+                    return {t.id for st in stmts for x in ast.walk(st) if isinstance(x, (ast.Assign, ast.AnnAssign, ast.AugAssign))
+                            for t in (x.targets if isinstance(x, ast.Assign) else [x.target]) if isinstance(t, ast.Name)}
+                in_all = set.intersection(*[bound(b.body) for b in branches]) if branches else set()
+                before = {x.id for x in walk_no_nested(fn) if isinstance(x, ast.Name) and isinstance(x.ctx, ast.Store) and x.lineno < i.lineno} | set(func_params(fn))
+                after_reads = {x.id for x in walk_no_nested(fn) if isinstance(x, ast.Name) and isinstance(x.ctx, ast.Load) and x.lineno > (branches[-1].end_lineno or 0)}
+                crash = sorted((in_all - before) & after_reads) if not tail else []
+                ok = raises or bool(crash)
+                rep.add(rid, f"name dispatch:{fn.name}:{subs[0]} in {names}:any other name is rejected", ok,
+                        (f"rejected through the unbound local {crash}" if crash else "rejected by the else branch") if ok else
+                        f"a declaration whose name is none of {names} falls through the chain and the function goes on (nothing raises, every local read "
+                        f"afterwards is bound): the grammar accepts any identifier here, so a misspelt or unsupported name is half-wrapped instead of rejected",
+                        f"{mi.rel}:{i.lineno}")
+    rep.units["name_dispatch_chains"] = n
+    if scanned < min_functions:
+        raise AnalysisError(f"{rep.prop}/{rid}: only {scanned} functions scanned in {package}")
